@@ -55,6 +55,10 @@ def run(ctx):
         ('int f(int x,int y){ y = (int)-x; }', 'int f(int x,int y){ y = x * 3; }', 'cast-whole-rhs-unary'),
         ('int f(int x,int y){ y = -(int)x; }', 'int f(int x,int y){ y = x * 3; }', 'unary-of-cast'),
         ('int f(int x,int y){ y = (int)x + (int)y; }', 'int f(int x,int y){ y = x + y; }', 'cast-operand'),
+        ('int f(int x,int y){ y = -(int)(long)x; }', 'int f(int x,int y){ y = x * 3; }', 'unary-of-double-cast'),
+        ('int f(int x,int y){ y = +(long)(int)x; }', 'int f(int x,int y){ y = x; }', 'unary-of-double-cast'),
+        ('int f(int x,int y){ (int)(long)x++; }', 'int f(int x,int y){ x = x + 1; }', 'double-cast-statement'),
+        ('int f(int x,int y){ while (y < 9) { y = -(long)(int)x; x = x + y; } }', 'int f(int x,int y){ while (y < 9) { y = x * 3; x = x + y; } }', 'unary-of-double-cast'),
         ('int f(int x,int y){ while (x < 9) { y = (int)x; x++; } }', 'int f(int x,int y){ while (x < 9) { y = x; x = x + 1; } }', 'cast-whole-rhs-id'),
     ]
     cases = []
